@@ -328,12 +328,14 @@ def ancestor_rebind_ops(root):
 
 def scope_src(sealed_stack, acc_stack, indent=''):
   lines = []
-  for v in sealed_stack:
-    lines.append(f'{indent}with pg.as_sealed({v!r}):')
-    indent += '  '
-  for v in acc_stack:
-    lines.append(f'{indent}with pg.allow_writable_accessors({v!r}):')
-    indent += '  '
+  for fn, stack in (('pg.as_sealed', sealed_stack),
+                    ('pg.allow_writable_accessors', acc_stack)):
+    for v in stack:
+      if isinstance(v, tuple):
+        lines.append(f'{indent}with {fn}({v[1]!r}): pass')
+        continue
+      lines.append(f'{indent}with {fn}({v!r}):')
+      indent += '  '
   return lines, indent
 
 
@@ -345,14 +347,18 @@ class Scopes:
     self.cms = []
 
   def __enter__(self):
-    for v in self.s:
-      cm = pg.as_sealed(v)
-      cm.__enter__()
-      self.cms.append(cm)
-    for v in self.a:
-      cm = pg.allow_writable_accessors(v)
-      cm.__enter__()
-      self.cms.append(cm)
+    # An entry ('x', v) stands for a scope that is entered and left again
+    # before the operation runs (the enclosing scope must be effective again).
+    for fn, stack in ((pg.as_sealed, self.s),
+                      (pg.allow_writable_accessors, self.a)):
+      for v in stack:
+        if isinstance(v, tuple):
+          with fn(v[1]):
+            pass
+          continue
+        cm = fn(v)
+        cm.__enter__()
+        self.cms.append(cm)
 
   def __exit__(self, *exc):
     while self.cms:
@@ -361,6 +367,7 @@ class Scopes:
 
 
 def effective(stack, obj_flag):
+  stack = [v for v in stack if not isinstance(v, tuple)]  # exited scopes
   return obj_flag if (not stack or stack[-1] is None) else stack[-1]
 
 
@@ -607,7 +614,8 @@ def drv_sealed_scopes(tier, seed):
       '(flag, scope-stack) configs; all scope stacks of depth<=3 (quick) / '
       '<=4 (thorough) over {True,False,None} x {root sealed, inner node '
       'sealed, unsealed} with one op of every kind per node kind; '
-      'scope + exception restores flags; other thread unaffected')
+      'operations after an inner scope was left (enclosing scope effective '
+      'again); scope + exception restores flags; other thread unaffected')
   core = [  # (seal_root, stack)
       (False, (True,)), (True, (False,)), (True, (None,)),
       (False, (False, True)), (True, (True, False)), (True, (True, None)),
@@ -665,6 +673,23 @@ def drv_sealed_scopes(tier, seed):
               start_sealed=effective(
                   stack, sealed_at is not None and
                   is_within(addr[0], sealed_at))))
+  # After an inner scope is left, the enclosing scope is effective again.
+  for tree in ('dict', 'obj'):
+    proto = build(tree)
+    ops = [o for o in all_ops_at(proto) if o[0] in reduced]
+    for a in (True, False, None):
+      for b in (True, False, None):
+        for stack in ((a, ('x', b)), (('x', b),), (a, ('x', b), None)):
+          for seal_root in (False, True):
+            setup = ['root.seal(True)'] if seal_root else []
+            pool = Pool(tree, (lambda t: t.seal(True)) if seal_root else None)
+            for name, kind, src, addr, _ in ops:
+              root = pool.get()
+              pool.done(attempt(
+                  rec, tree, root, setup, stack, (), addr, kind, name, src,
+                  effective(stack, seal_root),
+                  resolve(root, addr).accessor_writable,
+                  f'root.sealed={seal_root} as_sealed{stack}'))
   # Scope does not leak to other threads, and is restored after exceptions.
   d = pg.Dict(a=1)
   res = {}
@@ -758,6 +783,20 @@ def drv_accessor(tier, seed):
               attempt(rec, tree, root, setup, (), stack, a_addr, 'rebind',
                       name, src, False, True,
                       f'acc_flag={flag}@{addr[0]!r} allow_writable{stack}')
+  # After an inner scope is left, the enclosing scope is effective again.
+  for tree in ('dict', 'obj'):
+    for addr, k in addresses(build(tree)):
+      for a in (True, False, None):
+        for b in (True, False, None):
+          stack = (a, ('x', b))
+          pool = Pool(tree)
+          for name, kind, src in OPS[k]:
+            if kind not in ('acc', 'rebind'):
+              continue
+            root = pool.get()
+            w = effective(stack, resolve(root, addr).accessor_writable)
+            pool.done(attempt(rec, tree, root, [], (), stack, addr, kind, name,
+                              src, False, w, f'allow_writable{stack}'))
   # Constructor keyword.
   ctor = [
       ('dict', "pg.Dict(a=1, b=2, accessor_writable=False)", DICT_OPS),
